@@ -48,6 +48,16 @@ func ccSeen(c fiber.Ctx) string {
 
 // ccBuildApp: warm (may be nil) are requests served one after the other BEFORE the two concurrent ones — the
 // application's context pool, the redirect pool and the binder pools then hold what those requests released.
+// ccGate is a custom route constraint that yields to the scheduler: a scheduling point INSIDE the matcher, between
+// the moment a parameter value is cut out of the path and the moment the route is accepted.
+type ccGate struct{}
+
+func (ccGate) Name() string { return "gate" }
+func (ccGate) Execute(string, ...string) bool {
+	verifrt.Yield("constraint.gate")
+	return true
+}
+
 func ccBuildApp(cfg int, warm ...func() *fasthttp.Request) func() fasthttp.RequestHandler {
 	return func() fasthttp.RequestHandler {
 		conf := fiber.Config{DisableDefaultDate: true, Views: tinyViews{}, PassLocalsToViews: true, Immutable: cfg == 2}
@@ -71,6 +81,8 @@ func ccBuildApp(cfg int, warm ...func() *fasthttp.Request) func() fasthttp.Reque
 			verifrt.Yield("handler.mid")
 			return c.SendString(ccSeen(c))
 		}
+		app.RegisterCustomConstraint(ccGate{})
+		app.Get("/g/:a<gate>/:b<gate>", h)
 		app.Get("/p/:a", h)
 		app.Get("/p/:a/:b", h)
 		app.Get("/w/*", h)
@@ -135,6 +147,8 @@ func runConcurrentMixes(r *core.Run) {
 		{Name: "post-bind-json-dave", Make: mk("POST", "/bind?name=q-dave", "dave", "application/json", `{"name":"dave","age":41,"tags":["t1","t2"],"city":"oslo"}`)},
 		{Name: "post-bind-form-erin", Make: mk("POST", "/bind", "erin", "application/x-www-form-urlencoded", "name=erin&age=7&tags=f1")},
 		{Name: "get-redirect-frank", Make: mk("GET", "/redir/frank?name=in-frank", "frank", "", "")},
+		{Name: "get-gated-hugo", Make: mk("GET", "/g/hugo-one/hugo-two?name=hugo", "hugo", "", "")},
+		{Name: "get-gated-iris", Make: mk("GET", "/g/iris-1/iris-2", "iris", "", "")},
 		{Name: "get-404-gina", Make: mk("GET", "/nowhere", "gina", "", "")},
 	}
 	bound := 2
